@@ -167,13 +167,14 @@ CoerceTo(ctx, p, d) ==
 ---------------------------------------------------------------------------
 \* Primitives (strict): bool is not a number, an integer is a float.
 PrimKinds(p) == CASE p = "none"  -> {"null"}
+                  [] p = "undef" -> {}          \* UndefinedType: no datum deserializes to it
                   [] p = "bool"  -> {"bool"}
                   [] p = "int"   -> {"int"}
                   [] p = "float" -> {"int", "float"}
                   [] p = "str"   -> {"str"}
 
 PrimJson(p) == CASE p = "none" -> "null" [] p = "bool" -> "boolean" [] p = "int" -> "integer"
-                 [] p = "float" -> "number" [] p = "str" -> "string"
+                 [] p = "float" -> "number" [] p = "str" -> "string" [] p = "undef" -> "undefined"
 
 PrimStrict(ctx, p, cons, d) ==
   IF d.k \notin PrimKinds(p) THEN Bad(Err("type:" \o PrimJson(p)))
@@ -343,8 +344,10 @@ RObj(ctx, cls, cons, d, disc) ==
                    \o [i \in DOMAIN extraTD |-> <<DStr(extraTD[i][1]), AnyImage(extraTD[i][2])>>])
         ELSE VInst(cls, [i \in DOMAIN stored |->
                            <<stored[i].name,
-                             IF stored[i].skipd \/ stored[i].kind = "ro" THEN stored[i].dv
-                             ELSE val(stored[i])>>])
+                             LET x == IF stored[i].skipd \/ stored[i].kind = "ro" THEN stored[i].dv
+                                      ELSE val(stored[i]) IN
+                             \* __post_init__ of the class (own or inherited) runs on construction
+                             IF K.postinc = stored[i].name /\ x.k = "int" THEN DInt(x.n + 100) ELSE x>>])
   IN IF allErr # {} THEN BadX(allErr, allErrX)
      ELSE IF unspec THEN Unspecified
      ELSE Ok(image)
@@ -461,6 +464,10 @@ RD(ctx, T, cons, d) ==
               IN IF own \cup sub # {} THEN BadX(own \cup sub, subx)
                  ELSE IF \E i \in DOMAIN d.o : IsUnspec(kr[i]) \/ IsUnspec(vr[i]) THEN Unspecified
                  ELSE Ok(VDict([i \in DOMAIN d.o |-> <<kr[i].v, vr[i].v>>]))
+    [] T.k = "union" /\ (\E i \in DOMAIN T.alts : T.alts[i] = TPrim("undef")) ->
+         \* UndefinedType is not a deserializable alternative: Union[T, UndefinedType] reads as T
+         LET rest == SelectSeq(T.alts, LAMBDA a : a # TPrim("undef")) IN
+         IF Len(rest) = 1 THEN RD(ctx, rest[1], cons, d) ELSE RD(ctx, TUnion(rest), cons, d)
     [] T.k = "union"   ->
          IF ctx.O.impl THEN MUnion(ctx, T, cons, d)
          ELSE
